@@ -5,7 +5,8 @@ import _e3
 from mirsmt import sym, models, check
 from mirsmt.sym import Ptr, Agg, Enum, Native, Fork, Diverge, UNIT, bv, Opaque
 
-ASSUME = ["only the prologue of run_transport (up to its first poll) is executed: the mio event loop, accept/close/reset sequences, per-client fan-out, delivery and ordering need a running process and are outside this check",
+ASSUME = ["run_transport is executed only up to its first poll, and drive_connection as a unit (one client, <= 2 calls): the mio event loop, accept/close/reset sequences, the per-client fan-out bookkeeping (client counting, drop-oldest), delivery and ordering need a running process and are outside this check",
+          "drive_connection: frames are abstract byte ranges with symbolic lengths 1..2^20; a write accepts any prefix or fails with WouldBlock / Interrupted (<= 2 per history) / another error; no tracing subscriber (events and spans disabled)",
           "VecDeque::with_capacity(n) panics with 'capacity overflow' when n elements of the element type exceed isize::MAX bytes (documented std behaviour); mio/tracing calls are opaque",
           "size_of::<bytes::Bytes>() = 32"]
 ELEM = 32
@@ -62,12 +63,231 @@ def prologue(e3):
     check.discharge_many(e3.res, specs, 60)
 
 
+TRACING = [r"tracing", r"__CALLSITE", r"LevelFilter", r"DefaultCallsite", r"Interest", r"ValueSet", r"FieldSet", r"Metadata", r"Event::", r"__macro_support", r"fmt::Arguments", r"core::fmt",
+           r"^Arguments::", r"^debug$", r"^display$", r"tracing-0\.1", r"^Span::"]
+KINDS = ["WouldBlock", "Interrupted", "Other"]
+LMAX = 1 << 20
+MAX_INTR = 2
+
+
+def drive(e3, ncalls, nq, with_rem):
+    """drive_connection, `ncalls` consecutive calls on one client: the socket accepts any prefix of each write or fails with
+    WouldBlock / Interrupted / another error. Frames are abstract byte ranges (frame id, lo, hi) with symbolic lengths."""
+    P = _e3.program(["metrics-exporter-tcp"])
+    P.enums.setdefault("ErrorKind", KINDS)
+    L = [z3.BitVec(f"len{i}", 64) for i in range(nq + 1)]          # frame 0 is the one whose remainder may be parked in wbuf
+    rem_lo = z3.BitVec("parked_from", 64)
+    base = [z3.And(z3.UGE(x, bv(1)), z3.ULE(x, bv(LMAX))) for x in L]
+    nwrite = [0]
+
+    def B(i, lo, hi):
+        return Native("bytes", [bv(i), lo, hi])
+
+    def m_write(eng, ctx, f, path, args, dty):
+        buf = args[1]
+        if isinstance(buf, Ptr):
+            buf = eng.load_ptr(ctx, buf)
+        fid, lo, hi = buf.data
+        nwrite[0] += 1
+        k = nwrite[0]
+        n = z3.BitVec(f"accepted{k}", 64)
+        kind = z3.BitVec(f"errkind{k}", 64)
+        ok = z3.Bool(f"write_ok{k}")
+
+        def good(c):
+            c.pc.append(z3.ULE(n, hi - lo))
+            c.observe("accepted", frame=fid, lo=lo, hi=lo + n, n=n)
+            return Enum(0, {0: Agg({0: n})}, "Result")
+
+        def bad_kind(ki):
+            def bad(c):
+                c.pc.append(kind == bv(ki))
+                c.observe("write_error", kind=kind)
+                if KINDS[ki] == "Interrupted":
+                    c.statics["interrupts"] = c.statics.get("interrupts", 0) + 1
+                return Enum(1, {1: Agg({0: Native("ioerr", bv(ki))})}, "Result")
+            return bad
+        alts = [(ok, good)]
+        for ki, kn in enumerate(KINDS):
+            cond = z3.And(z3.Not(ok), kind == bv(ki))
+            if kn == "Interrupted":
+                # bound: a write is interrupted at most MAX_INTR times per history (the retry is a recursion)
+                cnt = ctx.statics.get("interrupts", 0)
+                if isinstance(cnt, int):
+                    if cnt >= MAX_INTR:
+                        continue
+                else:
+                    cond = z3.And(cond, cnt < MAX_INTR)
+            alts.append((cond, bad_kind(ki)))
+        return Fork(alts)
+
+    def m_kind(eng, ctx, f, path, args, dty):
+        e = args[0]
+        while isinstance(e, Ptr):
+            e = eng.load_ptr(ctx, e)
+        return Enum(e.data, {}, "ErrorKind")
+
+    def m_kind_eq(eng, ctx, f, path, args, dty):
+        a, b_ = args
+        while isinstance(a, Ptr):
+            a = eng.load_ptr(ctx, a)
+        while isinstance(b_, Ptr):
+            b_ = eng.load_ptr(ctx, b_)
+        da = bv(a.discr) if isinstance(a.discr, int) else a.discr
+        db = bv(b_.discr) if isinstance(b_.discr, int) else b_.discr
+        return da == db
+
+    def m_pop_front(eng, ctx, f, path, args, dty):
+        q = eng.load_ptr(ctx, args[0])
+        if not q.data:
+            return Enum(0, {}, "Option")
+        eng.store_ptr(ctx, args[0], Native("deque", list(q.data[1:])))
+        return Enum(1, {1: Agg({0: q.data[0]})}, "Option")
+
+    def m_len(eng, ctx, f, path, args, dty):
+        b_ = args[0]
+        while isinstance(b_, Ptr):
+            b_ = eng.load_ptr(ctx, b_)
+        return b_.data[2] - b_.data[1]
+
+    def m_split_off(eng, ctx, f, path, args, dty):
+        b_ = eng.load_ptr(ctx, args[0])
+        fid, lo, hi = b_.data
+        at = args[1]
+        eng.store_ptr(ctx, args[0], Native("bytes", [fid, lo, lo + at]))
+        return Native("bytes", [fid, lo + at, hi])
+
+    def m_deref(eng, ctx, f, path, args, dty):
+        b_ = args[0]
+        while isinstance(b_, Ptr):
+            b_ = eng.load_ptr(ctx, b_)
+        return b_
+    m = {r"^<mio::net::TcpStream as std::io::Write>::write$|TcpStream as Write>::write$": m_write, r"^std::io::Error::kind$|io::Error::kind$": m_kind, r"^<ErrorKind as PartialEq>::eq$": m_kind_eq,
+         r"^VecDeque::pop_front$": m_pop_front, r"^bytes::Bytes::len$|^Bytes::len$": m_len, r"Bytes::split_off$": m_split_off, r"Bytes as Deref>::deref$": m_deref,
+         r"Level as PartialOrd>::le$": lambda *a: z3.BoolVal(False)}       # no tracing subscriber: events and spans are disabled
+    m.update(models.BASE)
+    eng = sym.Engine(P, models=m, opaque=TRACING, loop_bound=nq + 3, max_paths=5000)
+    eng.merging = False
+    b = P.find_fn("drive_connection")
+    ctx0 = sym.Ctx(eng, 1)
+    wb = Enum(1, {1: Agg({0: B(0, rem_lo, L[0])})}, "Option") if with_rem else Enum(0, {}, "Option")
+    if with_rem:
+        base.append(z3.And(z3.UGT(rem_lo, bv(0)), z3.ULT(rem_lo, L[0])))
+    ctx0.statics = {"wbuf": wb, "msgs": Native("deque", [B(i, bv(0), L[i]) for i in range(1, nq + 1)])}
+
+    def script():
+        outs = []
+        for k in range(ncalls):
+            r = yield ("call", b, [Opaque("conn"), Ptr(("static", "wbuf")), Ptr(("static", "msgs"))])
+            outs.append(r)
+            if z3.is_true(z3.simplify(eng.as_bool(r))):
+                break               # the client is being removed
+        w = yield ("getstatic", "wbuf")
+        q = yield ("getstatic", "msgs")
+        return Agg({0: outs[-1], 1: w, 2: q})
+    leaves = eng.run_script(1, f"drive_connection x{ncalls}", script, ctx0=ctx0)
+    e3.absorb(eng)
+    done = [l for l in leaves if l.status == "done"]
+    other = z3.Or(*[l.taken() for l in leaves if l.status != "done"] or [z3.BoolVal(False)])
+    torn, lost, dup = [], [], []
+    for l in done:
+        closing = eng.as_bool(l.ret.f[0])
+        acc = [dict(pl, guard=e.guard) for lab, e, pl in l.obs if lab == "accepted"]
+        # replay the accepted segments against the reference stream: current frame `cur` with `off` bytes of it accepted
+        cur = bv(0) if with_rem else bv(-1 & ((1 << 64) - 1))
+        off = rem_lo if with_rem else bv(0)
+        inprog = z3.BoolVal(with_rem)
+        bad_t = z3.BoolVal(False)
+        bad_d = z3.BoolVal(False)
+        for a in acc:
+            flen = L[-1]
+            for i in reversed(range(nq)):
+                flen = z3.If(a["frame"] == bv(i), L[i], flen)
+            nonempty = z3.And(a["guard"], a["n"] != bv(0))
+            cont = z3.And(inprog, a["frame"] == cur, a["lo"] == off)
+            start = z3.And(z3.Not(inprog), a["lo"] == bv(0), z3.Or(cur == bv(-1 & ((1 << 64) - 1)), z3.UGT(a["frame"], cur)))
+            bad_t = z3.Or(bad_t, z3.And(nonempty, z3.Not(z3.Or(cont, start))))
+            bad_d = z3.Or(bad_d, z3.And(nonempty, z3.Not(inprog), cur != bv(-1 & ((1 << 64) - 1)), z3.ULE(a["frame"], cur)))
+            newoff = a["hi"]
+            cur = z3.If(nonempty, a["frame"], cur)
+            off = z3.If(nonempty, newoff, off)
+            inprog = z3.If(nonempty, newoff != flen, inprog)
+        # at return, a frame in progress must be parked in wbuf exactly from where the socket stopped (unless the client is removed)
+        w = l.ret.f[1]
+        q = l.ret.f[2]
+        if not isinstance(w, Enum):
+            raise sym.Unsupported(f"wbuf at return: {w}")
+        has_w = eng.discr_is(w.discr, 1)
+        if 1 in w.v and isinstance(w.v[1].f.get(0), Native):
+            wf, wlo, whi = w.v[1].f[0].data
+            parked_ok = z3.And(has_w, wf == cur, wlo == off)
+        else:
+            wf = None
+            parked_ok = z3.BoolVal(False)
+        bad_t = z3.Or(bad_t, z3.And(z3.Not(closing), inprog, z3.Not(parked_ok)))
+        torn.append(z3.And(l.taken(), bad_t))
+        dup.append(z3.And(l.taken(), bad_d))
+        # whole frames: every queued frame is accepted completely, still queued / parked, or the client is removed
+        kept = [x.data[0] == bv(0) if False else x.data[0] for x in q.data]
+        for i in range(1, nq + 1):
+            started = z3.Or(*[z3.And(a["guard"], a["frame"] == bv(i), a["n"] != bv(0)) for a in acc] or [z3.BoolVal(False)])
+            still = z3.Or(*([k == bv(i) for k in kept] + ([z3.And(has_w, wf == bv(i))] if wf is not None else [])) or [z3.BoolVal(False)])
+            lost.append(z3.And(l.taken(), z3.Not(closing), z3.Not(started), z3.Not(still)))
+    cname = f"c11_drive_c{ncalls}_q{nq}_{'rem' if with_rem else 'norem'}"
+    bounds = (f"{ncalls} consecutive call(s) of drive_connection on one client; parked remainder of a frame: {'yes (any split point)' if with_rem else 'none'}; {nq} whole frame(s) queued; frame lengths 1..2^20; "
+              f"every write accepts any prefix (incl. 0 bytes) or fails with WouldBlock / Interrupted (at most {MAX_INTR} times per history) / another error; {len(done)} paths")
+
+    def on_model(ob, model):
+        ev = lambda t: model.eval(t, model_completion=True)
+        for l in done:
+            if z3.is_true(ev(l.taken())):
+                rows = []
+                for lab, e, pl in l.obs:
+                    if not z3.is_true(ev(e.guard)):
+                        continue
+                    if lab == "accepted":
+                        rows.append(f"write accepted bytes [{ev(pl['lo'])}, {ev(pl['hi'])}) of frame {ev(pl['frame'])}")
+                    elif lab == "write_error":
+                        rows.append(f"write failed: {KINDS[ev(pl['kind']).as_long() % len(KINDS)]}")
+                ob.sample = {"frame_lengths": [str(ev(x)) for x in L], "parked_from": str(ev(rem_lo)) if with_rem else None, "socket": rows,
+                             "returned_remove_client": str(ev(eng.as_bool(l.ret.f[0]))), "wbuf_is_some_after": str(ev(eng.discr_is(l.ret.f[1].discr, 1))), "queue_after": [str(ev(x.data[0])) for x in l.ret.f[2].data]}
+                break
+        pname = ob.name.split(":")[1]
+        import replay_e3
+        os.makedirs(os.path.join(REPLAYS, "C11"), exist_ok=True)
+        pp = os.path.join(REPLAYS, "C11", f"{cname}.{pname}.plan")
+        open(pp, "w").write(replay_e3.plan_text("c11_drive", pname, {}, [], {"with_rem": int(with_rem)}))
+        status, out = replay_e3.run("c11", pp)
+        ob.detail += f" | native replay (c11, stalled client over real sockets): {status}"
+        if isinstance(ob.sample, dict):
+            ob.sample["native_replay"] = {"status": status, "output": out[-500:]}
+        ob.replay = pp
+        ob.reproduced = status == "reproduced"
+        if not ob.reproduced:
+            ob.status = "error"
+            ob.detail += " — counterexample did NOT reproduce natively: treated as an encoder/model problem, not reported as a violation"
+    specs = [dict(name=f"{cname}:witness", desc="the calls return", bounds=bounds, cons=base + [z3.Or(*[l.taken() for l in done] or [z3.BoolVal(False)])], expect_unsat=False),
+             dict(name=f"{cname}:returns", desc="drive_connection panics or exceeds the loop bound", bounds=bounds, cons=base + [other], expect_unsat=True),
+             dict(name=f"{cname}:no_torn_frame", desc="the bytes accepted by the socket are not a concatenation of whole frames: a frame is left incomplete and its remainder is not parked, or bytes are sent out of place",
+                  bounds=bounds, cons=base + [z3.Or(*torn) if torn else z3.BoolVal(False)], expect_unsat=True, on_model=on_model),
+             dict(name=f"{cname}:no_duplicated_or_reordered_frame", desc="a frame is sent again or before an earlier one", bounds=bounds, cons=base + [z3.Or(*dup) if dup else z3.BoolVal(False)], expect_unsat=True, on_model=on_model),
+             dict(name=f"{cname}:no_frame_lost_by_a_failed_write", desc="a queued frame is neither sent, nor still queued or parked, although the client is kept", bounds=bounds,
+                  cons=base + [z3.Or(*lost) if lost else z3.BoolVal(False)], expect_unsat=True, on_model=on_model)]
+    check.discharge_many(e3.res, specs, 120 if ncalls == 1 else 900)
+
+
 def run(tier, seed, t0):
     e3 = _e3.E3("C11")
     try:
         prologue(e3)
     except sym.Unsupported as ex:
         e3.error("c11_prologue", "MIR->SMT encoding of run_transport's prologue", ex)
+    shapes = [(1, 1, False), (1, 1, True), (1, 2, True)] if tier == "quick" else [(1, 1, False), (1, 1, True), (1, 2, True), (2, 1, True), (2, 2, False)]
+    for nc, nq, wr in shapes:
+        try:
+            drive(e3, nc, nq, wr)
+        except sym.Unsupported as ex:
+            e3.error(f"c11_drive_c{nc}_q{nq}", "MIR->SMT encoding of drive_connection", ex)
     finish("C11", tier, seed, list(e3.res.obligations), t0, ASSUME + ["E3 callee models: " + ", ".join(sorted(e3.models))], sorted(e3.functions),
            explanation="MIR->SMT encoding of the start-up path of the TCP exporter's transport thread over every buffer configuration")
 
